@@ -441,6 +441,10 @@ func (pso *PubSubOwner) UnmarshalXML(d *xml.Decoder, start xml.StartElement) err
 				if err != nil {
 					return err
 				}
+			case "set":
+				rs := ResultSet{}
+				err = d.DecodeElement(&rs, &tt)
+				pso.ResultSet = &rs
 			}
 			if err != nil {
 				return err
